@@ -355,7 +355,7 @@ async fn run_case(case: &Case, ctx: &mut Ctx) -> CaseResult {
             };
             // the shape recorded as C06's known finding (transactions constructed against the
             // block-start state) is C06's to report; such a block cannot be decided
-            if error.contains("failed to construct checked transaction") && error.contains("not authorized") {
+            if l1::is_block_start_construction_shape(error, &decided, 2 + usize::from(ve_enabled)) {
                 ctx.label("history-ends:c06-known-shape:tx-constructed-against-block-start-state");
                 undecidable = true;
                 continue;
@@ -454,7 +454,7 @@ pub fn run(args: &[String]) -> ! {
                    FinalizeBlock all-Ok-or-all-Err, equal responses, equal app hash and full state dump. \
                    Non-trivial: a height whose block contains user transactions and that is reached over \
                    >= 3 distinct call paths",
-            cases_quick: 160,
+            cases_quick: 320,
             cases_thorough: 4000,
             shards: 12,
             min_nontrivial: 0.2,
